@@ -411,6 +411,22 @@ impl Drop for LinkerOutput<'_> {
     }
 }
 
+/// Escapes the characters of a file name that Make would otherwise treat specially.
+fn escape_for_makefile(name: &str) -> String {
+    let mut out = String::with_capacity(name.len());
+    for ch in name.chars() {
+        match ch {
+            ' ' | '#' => {
+                out.push('\\');
+                out.push(ch);
+            }
+            '$' => out.push_str("$$"),
+            _ => out.push(ch),
+        }
+    }
+    out
+}
+
 /// Writes a dependency file in Makefile format.
 fn write_dependency_file(
     dep_file_path: &Path,
@@ -431,13 +447,17 @@ fn write_dependency_file(
             continue;
         }
 
-        let path_str = input_file.filename.display().to_string();
+        let path_str = escape_for_makefile(&input_file.filename.display().to_string());
         if seen.insert(path_str.clone()) {
             deps.push(path_str);
         }
     }
 
-    write!(writer, "{}:", output_path.display())?;
+    write!(
+        writer,
+        "{}:",
+        escape_for_makefile(&output_path.display().to_string())
+    )?;
 
     for dep in &deps {
         write!(writer, " {dep}")?;
